@@ -244,10 +244,32 @@ SEEDS7 = {
     "C18-10": ("C18", ["C18", "C14"], "fetchProof re-reads /latest and proves to the log's CURRENT head instead of the checkpoint being fed", "the log publishes a larger checkpoint between the feeder's read of /latest and fetchProof"),
 }
 SEEDS2.update(SEEDS7)
+SEEDS8 = {
+    "C06-11": ("C06", ["C06", "C07"], "sql WriteOps reserves a row with an auto-committed INSERT OR IGNORE before the transaction; Set becomes UPDATE; NULL chkpt maps to NotFound", "a first-use update killed between the reservation and the COMMIT (a listed log without a checkpoint)"),
+    "C06-12": ("C06", ["C16", "C04", "C06"], "a refresh (same size, same root) is cosigned and acknowledged but no longer stored", "a cosignature/v1 key and a refresh in a later second; then a read or a restart"),
+    "C11-11": ("C11", ["C11"], "parseBody parses the old size with strconv.ParseUint(s, 0, 64) (base prefixes, underscores, leading zero = octal)", "a non-canonical numeric token: 0x10, 0b101, 1_000, 010, 08"),
+    "C11-12": ("C11", ["C11", "C10"], "parseBody rewritten over io.ReadAll; CRLF normalised on the WHOLE body, checkpoint included", "a checkpoint containing the byte pair CR LF"),
+    "C12-11": ("C12", ["C05", "C12"], "inmemory copy-on-write map cloned from the snapshot the writer saw at WriteOps time", "in-memory store, successful updates of two DIFFERENT logs overlapping at storage-operation granularity"),
+    "C12-12": ("C12", ["C07", "C12"], "(as C14-9) sql writer done flag: a failed INSERT leaks the transaction", "SQL store, a fault at the Exec inside Set, then any later request for any log"),
+    "C14-11": ("C14", ["C14"], "inmemory Init() re-allocates the map (witness.New calls Init on every start)", "in-memory storage and a restart of Main over the same store object"),
+    "C14-12": ("C14", ["C14", "C19"], "a same-size different-root checkpoint makes the feeder return a permanent ErrSplitView that Run returns; Main's errgroup takes everything down", "a validly signed checkpoint of exactly the witnessed size with a different root"),
+    "C16-11": ("C16", ["C16"], "client wraps each request in WithTimeout + defer cancel(): the context is cancelled before the body is read", "a stored checkpoint larger than the transport's 4 KiB read buffer over a real connection (racy on loopback)"),
+    "C16-12": ("C16", ["C07", "C16"], "sql Set retries COMMIT and treats sql.ErrTxDone as success", "SQL store and a COMMIT that fails once"),
+    "C17-11": ("C17", ["C17"], "(as C17-5, written independently) Main decodes the config with KnownFields(true)", "running Main on the shipped configuration"),
+    "C17-12": ("C17", ["C17", "C12"], "AsLogMap refuses a key configured for more than one log (the three Rekor shards share one)", "AsLogMap over the whole shipped logs.yaml"),
+    "C19-11": ("C19", ["C19"], "(as C19-5/-9, written independently) rekor nil shard pointer", "a literal null in inactiveShards"),
+    "C19-12": ("C19", ["C19"], "pixel feeder converts to.Hash with tlog.Hash(to.Hash) (slice-to-array conversion panics on a short hash)", "pixel feeder, witness holding a checkpoint, a log-signed larger checkpoint below 2^62 whose root is shorter than 32 bytes"),
+    "C20-11": ("C20", ["C20", "C10"], "deferred outcome classifier by error identity + the size-0 non-empty-proof refusal wrapped with %w", "stored size 0, the same checkpoint resubmitted with a non-empty proof"),
+    "C20-12": ("C20", ["C20"], "(as C20-9, written independently) split-view alarm hoisted above the old-size checks", "one request that is both stale/oversized in old size and a same-size fork"),
+}
+SEEDS2.update(SEEDS8)
 ROUND5 = {'C01', 'C02', 'C03', 'C04', 'C05', 'C07', 'C08', 'C09', 'C10', 'C13', 'C15', 'C18'}
 SRC = {}
 for _sid in SEEDS2:
     _pid, _k = _sid.split("-")
+    if int(_k) >= 11:
+        SRC[_sid] = f"/tmp/seed8/{_pid}/_out/{int(_k) - 10}"
+        continue
     if int(_k) >= 9:
         SRC[_sid] = f"/tmp/seed7/{_pid}/_out/{int(_k) - 8}" if _pid in ROUND5 else f"/tmp/seed6/{_pid}/_out/{int(_k) - 8}"
         continue
